@@ -99,6 +99,8 @@ class Prop(GraphProp):
             {**base, "herm": True, "sizes": [1, 2], "npert": 1, "terms": [[1]], "fmt": "scalar_idx", "comps": [comp, {**comp, "herm": False}]},
             {**base, "herm": True, "sizes": [1, 1], "npert": 1, "terms": [[1]], "derived": True, "comps": [{**comp, "d0_herm": True}]},
             {**base, "herm": True, "sizes": [1, 2], "npert": 1, "terms": [[1]], "comps": [comp, {**comp, "fd": [0, 1], "chain": 0}]},
+            {**base, "herm": True, "domain": "sparse", "fmt": "scalar_idx", "sizes": [2, 2], "npert": 1, "terms": [[1]],
+             "comps": [{**comp, "solver": "legacy"}, {**comp, "solver": "custom"}]},
         ]
         if tier == "thorough":
             fam += [
@@ -121,7 +123,15 @@ class Prop(GraphProp):
             nsched = 2 if tier == "quick" else 4
             for si in range(nsched):
                 r = rng.rnd(seed, "C11", "fixed", wi, si)
-                ops = self.gen_ops(r, w, tier, {"max_ops": 14})
+                ops = self.gen_ops(r, w, tier, {"max_ops": 10})
+                # make sure every computation does real work inside the faulted part of the schedule
+                nb_, top = len(w["sizes"]), [w["cap"]] + [0] * (w["npert"] - 1)
+                low = [max(w["cap"] - 1, 1)] + [0] * (w["npert"] - 1)
+                lead = []
+                for c in range(len(w["comps"])):
+                    lead += [["get", c, "U", 0, nb_ - 1, low], ["get", c, "H_tilde", 0, 0, top]]
+                nbuild = sum(1 for op in ops if op[0] == "build")
+                ops = ops[:nbuild] + (lead if si % 2 == 0 else lead[::-1]) + ops[nbuild:]
                 clean = GraphProp.execute(self, {"world": w, "ops": ops, "faults": []})
                 if clean["violation"]:
                     cases.append((f"fixed-{wi}-{si}-clean", {"world": w, "ops": ops, "faults": []}))
